@@ -145,6 +145,14 @@ def _side(u):
 
 
 def _post(ctx, out, spec, axes, atoms, expect_kind):
+    if expect_kind == "abstract":
+        # only call-site preconditions / raise-unreachable are claimed for this function; the result is abstracted
+        from .interp import AbsArr
+        import numpy as np
+
+        ok = isinstance(out, (AbsArr, np.ndarray))
+        ctx.obligations.append(dict(kind="post-type", text="returns an array on this path", status="discharged" if ok else "refuted", backend="structural", detail="" if ok else "got %s" % type(out).__name__))
+        return
     if not isinstance(out, SymArray):
         ctx.obligations.append(dict(kind="post-type", text="result is an ndarray", status="refuted", backend="structural", detail="got %s" % type(out).__name__))
         return
